@@ -261,7 +261,9 @@ type node struct {
 
 type diffExpect struct {
 	New, Chg, Rem []string
-	Diffed        bool // a Diff was run (the hashes differed)
+	Diffed        bool            // a Diff was run (the hashes differed)
+	Torn          bool            // the indexes changed between the request rounds of the Diff
+	Either        map[string]bool // torn: ids that differed before or after, or were touched in between
 }
 
 func newNode(w *world, id string, space bool) *node {
